@@ -101,6 +101,8 @@ func rulesC10(c *Ctx) {
 	exactTimeRule(c, "C10.exacttime", "ConditionExpr", "conditionExpr", "reduce")
 	residualC10(c, ce)
 	parenRangeC10(c, ce)
+	nilResidualC10(c, ce)
+	zoneSourceC10(c)
 	// the residual is built through reduce: its boolean short-cuts decide
 	// whether `x OR false`, `true AND x` keep x
 	shortcutsC09(c, tt, "C10.reduce")
@@ -1044,4 +1046,113 @@ func parenRangeC10(c *Ctx, ce *ssa.Function) {
 		}
 	}
 	c.Floor("C10.parenrange", n, 1)
+}
+
+// nilResidualC10: "no residual" is said only of nothing, or of what a
+// recursive call already said it of.
+func nilResidualC10(c *Ctx, ce *ssa.Function) {
+	c.Rule("C10.nilresidual", "a successful return of conditionExpr with a nil residual (and a literal nil error) stands only under `cond == nil` or under a test that the residual of a recursive call was nil; the time-comparison arms return getTimeRange's own error. The AND/OR arm reads a nil side as `nothing to keep` and returns the other side alone — right for a side that was a time bound, wrong for one that merely folded to true: `true OR host = 'a'` is not `host = 'a'`")
+	n := 0
+	for _, b := range ce.Blocks {
+		ret, ok := b.Instrs[len(b.Instrs)-1].(*ssa.Return)
+		if !ok || len(ret.Results) != 3 {
+			continue
+		}
+		k0, ok0 := ret.Results[0].(*ssa.Const)
+		k2, ok2 := ret.Results[2].(*ssa.Const)
+		if !ok0 || !ok2 || !k0.IsNil() || !k2.IsNil() {
+			continue
+		}
+		n++
+		key := fmt.Sprintf("conditionExpr: nil residual returned #%d", n)
+		why := ""
+		for _, d := range ce.Blocks {
+			ifi, ok := d.Instrs[len(d.Instrs)-1].(*ssa.If)
+			if !ok {
+				continue
+			}
+			bo, ok := ifi.Cond.(*ssa.BinOp)
+			if !ok || bo.Op != token.EQL {
+				continue
+			}
+			kc, isC := bo.Y.(*ssa.Const)
+			if !isC || !kc.IsNil() {
+				continue
+			}
+			tb := d.Succs[0]
+			if !(tb == b || (len(tb.Preds) == 1 && tb.Dominates(b))) {
+				continue
+			}
+			switch x := bo.X.(type) {
+			case *ssa.Parameter:
+				if x == ce.Params[0] {
+					why = "the condition itself is nil"
+				}
+			case *ssa.Extract:
+				if call, ok := x.Tuple.(*ssa.Call); ok && call.Call.StaticCallee() == ce && x.Index == 0 {
+					why = "the recursive call returned no residual"
+				}
+			}
+		}
+		if why != "" {
+			c.OK("C10.nilresidual", key, ret.Pos(), why)
+		} else {
+			c.Bad("C10.nilresidual", key, ret.Pos(), "a nil residual is returned where neither the condition nor a recursive result was tested nil: whatever stood here is dropped from an enclosing OR")
+		}
+	}
+	c.Floor("C10.nilresidual", n, 2)
+}
+
+// zoneSourceC10: the valuer's zone is its Location field.
+func zoneSourceC10(c *Ctx) {
+	p := c.P
+	c.Rule("C10.zonesource", "NowValuer.Zone returns the valuer's Location field or nil, nothing computed from the reference time: the zone in which zone-less time strings are read is what the caller set (tz() or nothing, meaning UTC), not whichever zone the clock value happens to carry (a server-local time.Now() would shift every `time > '2000-01-01'` by the server's offset)")
+	f := p.SSAFunc(p.Method("NowValuer", "Zone"))
+	if f == nil {
+		c.Unk("C10.zonesource", "NowValuer.Zone", 0, "anchor not found")
+		return
+	}
+	n := 0
+	var origin func(v ssa.Value, depth int) string
+	origin = func(v ssa.Value, depth int) string {
+		if depth > 4 {
+			return "deep"
+		}
+		switch x := v.(type) {
+		case *ssa.Const:
+			if x.IsNil() {
+				return ""
+			}
+			return "a constant"
+		case *ssa.UnOp:
+			if fa, ok := x.X.(*ssa.FieldAddr); ok && fieldName(fa) == "Location" {
+				return ""
+			}
+			return "a load of something else"
+		case *ssa.Phi:
+			for _, e := range x.Edges {
+				if w := origin(e, depth+1); w != "" {
+					return w
+				}
+			}
+			return ""
+		case *ssa.Call:
+			return "the result of " + valueName(x)[len("result of "):]
+		}
+		return fmt.Sprintf("%T", v)
+	}
+	for _, b := range f.Blocks {
+		ret, ok := b.Instrs[len(b.Instrs)-1].(*ssa.Return)
+		if !ok || len(ret.Results) != 1 {
+			continue
+		}
+		n++
+		key := fmt.Sprintf("NowValuer.Zone: return #%d", n)
+		if w := origin(ret.Results[0], 0); w == "" {
+			c.OK("C10.zonesource", key, ret.Pos(), "the Location field or nil")
+		} else {
+			c.Bad("C10.zonesource", key, ret.Pos(), "returns "+w+": the zone is taken from somewhere other than the valuer's Location")
+		}
+	}
+	c.Floor("C10.zonesource", n, 1)
 }
